@@ -74,7 +74,7 @@ def run_one(patch, wt, sim, outdir, a):
         for pid in a.ids.split():
             with open(f"{outdir}/{pid}.log", "w") as f:
                 rc = sh([f"{sim}/target/release/ivpsim", "check", pid, a.tier, "--workers", str(a.workers)], env=env,
-                        timeout=3600, out=f)
+                        timeout=1200, out=f)
             if rc == 1:
                 rec["caught_by"].append(pid)
                 if "first_violation" not in rec:
